@@ -13,7 +13,7 @@ RULE = ('seeding: client and server x {system seeder fails, no seeder known (hoo
         'read after the end. records: long sessions (one suite per protection mode x each version) with '
         'renegotiations by alternating sides; every protected record is authenticated by the independent record layer under sequence number '
         'previous+1 starting at 0 after each key change, explicit CBC IVs / AEAD explicit nonces collected per (direction, key) and checked '
-        'pairwise distinct. uniq: N connections with distinct seeds: client randoms, server randoms, session IDs, ECDHE points, RSA-encrypted '
+        'pairwise distinct; several times per key the counters of both engines and of the decoder are moved to just below 2^16, 2^32, 2^48, 2^63 and near 2^64 so that the arithmetic around those values runs. uniq: N connections with distinct seeds: client randoms, server randoms, session IDs, server and client ECDHE points, RSA-encrypted '
         'premasters pairwise distinct. repro: pairs of connections with equal seeds and equal schedules must be byte-identical on the wire. '
         'distinct = (protection mode, version) pairs + seeding builds + reproducibility configurations + connections.')
 ASSUMPTIONS = [
@@ -21,10 +21,10 @@ ASSUMPTIONS = [
     'OpenSSL EVP trusted for the independent record layer',
 ]
 EVAL = ['cases', 'seed_sequence_resets', 'seed_hash_cases']
-DISTINCT = ['mode_version', 'seeding_build', 'repro_cfg', 'seed_sequence_step', 'seed_hash_outcome', 'fault_plan', 'seeding_outcome', 'system_seeder_name']
+DISTINCT = ['sequence_base', 'mode_version', 'seeding_build', 'repro_cfg', 'seed_sequence_step', 'seed_hash_outcome', 'fault_plan', 'seeding_outcome', 'system_seeder_name']
 REQUIRED = ['refused_without_randomness', 'seed_sequence_resets', 'started_with_randomness', 'inject_only_handshakes', 'records_sequence_checked',
             'explicit_ivs_seen', 'iv_sets_checked_unique', 'renegotiations', 'key_changes_seen', 'connections',
-            'fields_checked_pairwise_distinct', 'reproduced_pairs', 'first_flights_compared', 'direct_outputs_compared',
+            'fields_checked_pairwise_distinct', 'reproduced_pairs', 'sequence_jumps', 'first_flights_compared', 'direct_outputs_compared',
             'conservation_checks']
 NW = 12
 
